@@ -149,6 +149,48 @@ def sweep(tier, seed=0):
                         if msg:
                             fails.append(rtc.Failure("Array.vindex", {"chunks": ch, "points": pts, "same_array_for_both_axes": shared}, "ensures", "C20-vindex-equals-numpy", msg))
                             e2e_fail += 1
+        # vindex keys that mix a scalar integer / a slice with point indexers, on non-square arrays (the points are
+        # checked against the axis they address): dask follows NumPy's rule for the combined selection
+        if e2e_fail == 0:
+            for shape, ch in [((7, 8), ((3, 4), (5, 3))), ((8, 5), ((8,), (2, 3))), ((3, 5), ((1, 1, 1), (1,) * 5))]:
+                xv = np.arange(shape[0] * shape[1]).reshape(shape)
+                dv = da.from_array(xv, chunks=ch)
+                keys = [(0, [1, -1]), (2, [shape[1] - 1, 0]), (-1, [0, 2, -2]), ([1, -1], 0), ([shape[0] - 1, 0], -2), ([0, 1, -1], [1, -1, 0]), ([-1], [-1])]   # (slices are left out: vindex documents its own axis order for them)
+                for key in keys:
+                    cases += 1
+                    try:
+                        want = xv[key]
+                        got = dv.vindex[key].compute()
+                        msg = None if (got.shape == want.shape and np.array_equal(got, want)) else f"vindex{list(key)!r} gives {got.tolist()}, NumPy gives {want.tolist()}"
+                    except Exception as e:  # noqa
+                        msg = f"vindex{list(key)!r} raised {type(e).__name__}: {e}"
+                    if msg:
+                        fails.append(rtc.Failure("Array.vindex", {"shape": shape, "chunks": ch, "key": repr(key), "scalar_with_points": True}, "ensures", "C20-vindex-equals-numpy", msg))
+                        e2e_fail += 1
+                        break
+        # integer-array selection from irregular chunkings whose longest chunk is longer than 256 (and 65536) while the
+        # others are short: offsets inside the long chunk need more than one byte
+        if e2e_fail == 0:
+            rnd_t = __import__("random").Random(seed)
+            for chunks in [(300, 20, 20), (20, 300, 20), (5, 5, 270), (260, 260), (70000, 10, 10)] if tier != "quick" else [(300, 20, 20), (20, 300, 20), (5, 5, 270), (70000, 10, 10)]:
+                n_ = sum(chunks)
+                xt = np.arange(n_) * 10
+                dt = da.from_array(xt, chunks=(chunks,))
+                for idx in [[299, 3, n_ - 30, 260, 0, n_ - 10], sorted(rnd_t.sample(range(n_), 12)), [rnd_t.randrange(n_) for _ in range(15)], [n_ - 1, 0, 255, 256, 257]]:
+                    idx = [i_ for i_ in idx if 0 <= i_ < n_]
+                    cases += 1
+                    try:
+                        got = dt[idx].compute()
+                        want = xt[idx]
+                        msg = None if np.array_equal(got, want) else f"x[{idx}] on chunks {chunks}: dask gives {got.tolist()[:8]}, NumPy gives {want.tolist()[:8]}"
+                    except Exception as e:  # noqa
+                        msg = f"x[{idx}] on chunks {chunks} raised {type(e).__name__}: {e}"
+                    if msg:
+                        fails.append(rtc.Failure("Array.__getitem__", {"n": n_, "chunks": chunks, "index": idx}, "ensures", "C20-equals-numpy", msg))
+                        e2e_fail += 1
+                        break
+                if e2e_fail:
+                    break
         # 2-D combinations
         if e2e_fail == 0:
             x = np.arange(12).reshape(3, 4)
